@@ -356,46 +356,47 @@ def onAttachAll (g : Nat → Nat) (σ : Store) (b : Option Loc) : List Nat → S
   | [] => (σ, b)
   | c :: cs => let (σ', b') := onAttach g σ b c; onAttachAll g σ' b' cs
 
-/-- The emitted document: kind, flags, metadata, and the bag's keyword entries (key 4 is not a keyword).
-    `perm` stands for Go's map iteration order: any permutation of the entries. -/
-structure Doc where
-  kind : Nat
-  flags : Nat
-  reg : Option Nat
-  values : Option (List Nat)
-  shape : Option (List (Nat × Loc))
-  kw : Nat → Option BagObs           -- keyword ↦ value (`applyBag` sets one field per key)
+/-! #### the repaired converter: OnAttach runs against a private scratch copy
 
-def kwOf (entries : List (Nat × BagObs)) (k : Nat) : Option BagObs :=
-  if k = 4 then none else (entries.find? (fun p => p.1 == k)).map (·.2)
+  `annotatedInternals` (pending/C12-convert-scratch-bag.diff) copies the Bag — `[]string` values included —
+  into a map nothing else can reach, runs the callbacks against it and reads it. A private copy is modelled
+  as a value: `VBag`. The live store is not touched at all. -/
 
-/-- `maps.Clone` for the scratch bag of the repaired converter, with `[]string` values copied too. -/
-def deepCloneBag (σ : Store) (b : Option Loc) : Store × Option Loc :=
-  match readBag σ.heap b with
-  | none => alloc σ (.bag []) |> fun (σ', l) => (σ', some l)
-  | some kv =>
-    let step := fun (acc : Store × List (Nat × BagVal)) (p : Nat × BagVal) =>
-      match p.2 with
-      | .num n => (acc.1, acc.2 ++ [(p.1, BagVal.num n)])
-      | .strs hd =>
-        let xs := readArr acc.1.heap hd
-        let (σ', l) := alloc acc.1 (.arr xs)
-        (σ', acc.2 ++ [(p.1, BagVal.strs ⟨l, xs.length, xs.length⟩)])
-    let (σ1, kv') := kv.foldl step (σ, [])
-    let (σ2, l) := alloc σ1 (.bag kv')
-    (σ2, some l)
+abbrev VBag := List (Nat × BagObs)
+
+def vget (b : VBag) (k : Nat) : Option BagObs := (b.find? (fun p => p.1 == k)).map (·.2)
+
+def vset (b : VBag) (k : Nat) (v : BagObs) : VBag :=
+  if b.any (fun p => p.1 == k) then b.map (fun p => if p.1 == k then (k, v) else p) else b ++ [(k, v)]
+
+/-- value-level mirror of `onAttach` (same key conventions) -/
+def onAttachV (b : VBag) (c : Nat) : VBag :=
+  let k := keyOf c
+  let v := valOf c
+  if k = 0 then b
+  else if k = 1 then
+    match vget b k with
+    | some (.num o) => vset b k (.num (max o v))
+    | _ => vset b k (.num v)
+  else if k = 2 then
+    match vget b k with
+    | some (.num o) => vset b k (.num (min o v))
+    | _ => vset b k (.num v)
+  else if k = 3 then
+    let xs := match vget b k with | some (.strs xs) => xs | _ => []
+    if xs.contains v then b else vset b k (.strs (xs ++ [v]))
+  else vset b k (.num v)
+
+/-- The annotated scratch bag: a function of the schema's observation only. -/
+def entriesOf (o : Obs) : VBag := o.checks.foldl onAttachV (o.bag.getD [])
 
 /-- `jsonschema.ToJSONSchema(s)`: run every check's OnAttach, read the bag, delete the consumed `patterns`.
-    Today this happens on the live schema's Bag; with the repair, on a scratch copy. Returns the store, the
-    (possibly re-pointed, when the live Bag was nil) schema and the document's keyword entries. -/
-def convert (cfg : Cfg) (σ : Store) (s : Schema) : Store × Schema × List (Nat × BagObs) :=
-  let cks := readArr σ.heap s.checks
-  if cfg.convScratch then
-    let (σ1, b) := deepCloneBag σ s.bag
-    let (σ2, b') := onAttachAll cfg.grow σ1 b cks
-    let entries := ((readBag σ2.heap b').getD []).map (fun p => (p.1, obsBagVal σ2.heap p.2))
-    (σ2, s, entries)
+    Today this happens on the live schema's Bag; with the repair, on a scratch copy (no store effect).
+    Returns the store, the (possibly re-pointed, when the live Bag was nil) schema and the annotated entries. -/
+def convert (cfg : Cfg) (σ : Store) (s : Schema) : Store × Schema × VBag :=
+  if cfg.convScratch then (σ, s, entriesOf (obs σ.heap s))
   else
+    let cks := readArr σ.heap s.checks
     let (σ1, b) := onAttachAll cfg.grow σ s.bag cks
     let entries := ((readBag σ1.heap b).getD []).map (fun p => (p.1, obsBagVal σ1.heap p.2))
     -- applyStringBag: delete(internals.Bag, "patterns")
@@ -406,8 +407,39 @@ def convert (cfg : Cfg) (σ : Store) (s : Schema) : Store × Schema × List (Nat
       | none => σ1
     (σ2, { s with bag := b }, entries)
 
-def docOf (h : Loc → Option Cell) (s : Schema) (entries : List (Nat × BagObs)) : Doc :=
-  { kind := s.kind, flags := s.flags, reg := readMeta h s.self, values := readVals h s.values,
-    shape := readShape h s.shape, kw := kwOf entries }
+/-! #### from the annotated bag to the document (`applyBag`)
+
+  `for k, v := range bag` visits the entries in an arbitrary order and assigns the keyword(s) of each key.
+  Keyword fields: key 1 ↦ minLength (11), key 2 ↦ maxLength (12), key 6 (`size`) ↦ both, key 4 (`partial`) ↦
+  none, any other key k ↦ its own keyword (100 + k).  Today `size` is assigned inside the loop, so with
+  `minSize`/`maxSize` present the result depends on the visiting order; the repair assigns it after the loop. -/
+
+def fieldsOf (k : Nat) : List Nat :=
+  if k = 4 then [] else if k = 1 then [11] else if k = 2 then [12] else if k = 6 then [11, 12] else [100 + k]
+
+abbrev DocKw := Nat → Option BagObs
+
+def setFields (d : DocKw) (fs : List Nat) (v : BagObs) : DocKw := fun f => if fs.contains f then some v else d f
+
+/-- `applyBag` over the entries in visiting order `ord`. -/
+def applyBag (sizeLast : Bool) (ord : VBag) : DocKw :=
+  let loop := ord.foldl (fun d p => if sizeLast && p.1 == 6 then d else setFields d (fieldsOf p.1) p.2) (fun _ => none)
+  if sizeLast then
+    match vget ord 6 with
+    | some v => setFields loop [11, 12] v
+    | none => loop
+  else loop
+
+/-- The emitted document: value-typed parts, registry metadata, Values/Shape, and the keywords. -/
+structure Doc where
+  kind : Nat
+  flags : Nat
+  reg : Option Nat
+  values : Option (List Nat)
+  shape : Option (List (Nat × Loc))
+  kw : DocKw
+
+def docOfObs (sizeLast : Bool) (o : Obs) (ord : VBag) : Doc :=
+  { kind := o.kind, flags := o.flags, reg := o.reg, values := o.values, shape := o.shape, kw := applyBag sizeLast ord }
 
 end Gozod.Store
